@@ -51,11 +51,15 @@ func c15Oracle(s *scn.Scn, a *archive) (probs []*scn.Problem, nT int, harness er
 		}
 	}
 	// Candidate times.
-	cand := map[int64]bool{ts[1] - 1: true, ts[maxT] + 1: true}
+	// (in MICROseconds since the epoch: replication times are whole milliseconds, a requested T need not be; the
+	// candidates 400 us before and after every replication time fall inside the millisecond next to it)
+	const ms = int64(1000)
+	cand := map[int64]bool{(ts[1] - 1) * ms: true, (ts[maxT] + 1) * ms: true}
 	for j := ltx.TXID(1); j <= maxT; j++ {
-		cand[ts[j]], cand[ts[j]+1], cand[ts[j]-1] = true, true, true
+		cand[ts[j]*ms], cand[(ts[j]+1)*ms], cand[(ts[j]-1)*ms] = true, true, true
+		cand[ts[j]*ms+400], cand[ts[j]*ms-400] = true, true
 		if j < maxT && ts[j+1]-ts[j] >= 2 {
-			cand[(ts[j]+ts[j+1])/2] = true
+			cand[(ts[j]+ts[j+1])/2*ms] = true
 		}
 	}
 	for lvl, fs := range scn.AllLevels(s.ReplicaDir) {
@@ -64,7 +68,7 @@ func c15Oracle(s *scn.Scn, a *archive) (probs []*scn.Problem, nT int, harness er
 		}
 		for _, f := range fs {
 			m := f.MTime.UnixMilli()
-			cand[m-1], cand[m], cand[m+1] = true, true, true
+			cand[(m-1)*ms], cand[m*ms], cand[(m+1)*ms] = true, true, true
 			// A compacted file is "replicated" when its newest input was: its listing time must be that time.
 			if lvl != litestream.SnapshotLevel && f.Max <= maxT && m != ts[f.Max] {
 				add("compacted-file-time-not-newest-input", fmt.Sprintf("%s is listed with time %+dms relative to the replication time of TXID %d", f, m-ts[f.Max], f.Max))
@@ -83,31 +87,31 @@ func c15Oracle(s *scn.Scn, a *archive) (probs []*scn.Problem, nT int, harness er
 	prevJ := ltx.TXID(0)
 	for _, T := range Ts {
 		nT++
-		tt := time.UnixMilli(T).UTC()
+		tt := time.UnixMicro(T).UTC()
 		im, err := s.Restore(scn.RestoreOpt{Timestamp: tt})
 		// newest TXID replicated strictly before T
 		var best ltx.TXID
 		for j := ltx.TXID(1); j <= maxT; j++ {
-			if ts[j] < T {
+			if ts[j]*ms < T {
 				best = j
 			}
 		}
 		// CalcRestoreTarget must reject a T before the first backup.
-		if T < ts[1] {
+		if T < ts[1]*ms {
 			opt := litestream.NewRestoreOptions()
 			opt.Timestamp = tt
 			if _, terr := rep.CalcRestoreTarget(context.Background(), opt); terr == nil {
-				add("target-accepts-time-before-first-backup", fmt.Sprintf("CalcRestoreTarget accepted T=t1%+dms", T-ts[1]))
+				add("target-accepts-time-before-first-backup", fmt.Sprintf("CalcRestoreTarget accepted T=t1%+dus", T-ts[1]*ms))
 			}
 		}
 		if err != nil {
 			if complete && best > 0 {
-				add("timestamp-restore-failed", fmt.Sprintf("T=%s: all level-0 files present, TXID %d was replicated before T, but restore failed: %s", relT(T, ts), best, scn.ErrClass(err)))
+				add("timestamp-restore-failed", fmt.Sprintf("T=%s: all level-0 files present, TXID %d was replicated before T, but restore failed: %s", relTus(T, ts), best, scn.ErrClass(err)))
 			}
 			continue
 		}
 		if best == 0 {
-			add("restore-before-first-backup-succeeded", fmt.Sprintf("T=%s is not after the first replication time but restore returned a database", relT(T, ts)))
+			add("restore-before-first-backup-succeeded", fmt.Sprintf("T=%s is not after the first replication time but restore returned a database", relTus(T, ts)))
 			continue
 		}
 		// Which TXIDs does the restored image equal?
@@ -118,13 +122,13 @@ func c15Oracle(s *scn.Scn, a *archive) (probs []*scn.Problem, nT int, harness er
 			}
 		}
 		if len(eq) == 0 {
-			add("timestamp-restore-not-a-txid-state", fmt.Sprintf("T=%s: restored database equals the state of no replicated TXID", relT(T, ts)))
+			add("timestamp-restore-not-a-txid-state", fmt.Sprintf("T=%s: restored database equals the state of no replicated TXID", relTus(T, ts)))
 			continue
 		}
 		ok, exact := false, false
 		var chosen ltx.TXID
 		for _, j := range eq {
-			if ts[j] < T {
+			if ts[j]*ms < T {
 				ok = true
 				if j >= chosen {
 					chosen = j
@@ -135,22 +139,31 @@ func c15Oracle(s *scn.Scn, a *archive) (probs []*scn.Problem, nT int, harness er
 			}
 		}
 		if !ok {
-			add("data-from-after-T", fmt.Sprintf("T=%s: restored state equals TXID(s) %v, all replicated at or after T", relT(T, ts), eq))
+			add("data-from-after-T", fmt.Sprintf("T=%s: restored state equals TXID(s) %v, all replicated at or after T", relTus(T, ts), eq))
 			continue
 		}
 		if complete && !exact {
-			add("not-last-txid-before-T", fmt.Sprintf("T=%s: all level-0 files present; expected TXID %d, restored state equals %v", relT(T, ts), best, eq))
+			add("not-last-txid-before-T", fmt.Sprintf("T=%s: all level-0 files present; expected TXID %d, restored state equals %v", relTus(T, ts), best, eq))
 		}
 		// A later T never yields an earlier state: the newest matching TXID must not regress below the
 		// previous answer unless the images are equal (eq contains a TXID >= prevJ).
 		if chosen < prevJ {
-			add("later-T-earlier-state", fmt.Sprintf("T=%s yields TXID %v after an earlier T yielded %d", relT(T, ts), eq, prevJ))
+			add("later-T-earlier-state", fmt.Sprintf("T=%s yields TXID %v after an earlier T yielded %d", relTus(T, ts), eq, prevJ))
 		}
 		if chosen > prevJ {
 			prevJ = chosen
 		}
 	}
 	return probs, nT, nil
+}
+
+// relTus is relT for a T given in microseconds.
+func relTus(T int64, ts []int64) string {
+	r := relT(T/1000, ts)
+	if us := T % 1000; us != 0 {
+		r += fmt.Sprintf("%+dus", us)
+	}
+	return r
 }
 
 func relT(T int64, ts []int64) string {
